@@ -24,8 +24,6 @@ Definition json_lines (r : report) : list jline :=
    skipped entries are unchanged, deleted paths existed and are gone *)
 Theorem C19_events_truthful : forall refuse ds c now U keep src dst,
   src_wf src -> c_dry_run c = false -> dst [] = None ->
-  (forall e, In e src -> se_is_dir e = true -> forall cc s t, dst (se_path e) <> Some (File cc s t)) ->
-  (forall e, In e src -> se_is_dir e = false -> dst (se_path e) <> Some Dir) ->
   (forall p, dst p <> None -> In p U) ->
   let r := run refuse ds c now U keep src dst in
   r_refused r = false -> r_errors r = [] ->
@@ -36,15 +34,13 @@ Print Assumptions C19_events_truthful.
 (* conversely, a selected path whose destination entry changed has a create or update event (never only a skip) *)
 Theorem C19_changed_entry_has_event : forall refuse ds c now U keep src dst,
   src_wf src -> c_dry_run c = false -> dst [] = None ->
-  (forall e, In e src -> se_is_dir e = true -> forall cc s t, dst (se_path e) <> Some (File cc s t)) ->
-  (forall e, In e src -> se_is_dir e = false -> dst (se_path e) <> Some Dir) ->
   (forall p, dst p <> None -> In p U) ->
   let r := run refuse ds c now U keep src dst in
   r_refused r = false -> r_errors r = [] ->
   forall e, In e src -> r_fs r (se_path e) <> dst (se_path e) ->
   In (ACreate, se_path e) (r_events r) \/ In (AUpdate, se_path e) (r_events r).
 Proof.
-  intros refuse ds c now U keep src dst Hwf Hdry Hroot Hnf Hnd2 HU r Href Herr e He Hch.
+  intros refuse ds c now U keep src dst Hwf Hdry Hroot HU r Href Herr e He Hch.
   assert (Hevs : In (t_action (plan_entry c ds dst e), se_path e) (r_events r)).
   { subst r. unfold run in *. cbv zeta in *.
     match type of Href with context [if ?b then _ else _] => destruct b eqn:Eb end; [cbn in Href; discriminate|].
@@ -52,7 +48,7 @@ Proof.
     rewrite map_map. apply in_map_iff. exists e. split; [|exact He]. destruct (plan_entry_ok c ds dst e) as (_ & _ & Hp). rewrite Hp. reflexivity. }
   destruct (plan_entry_ok c ds dst e) as (_ & Hnd & _).
   destruct (t_action (plan_entry c ds dst e)) eqn:Ea; [| left; exact Hevs | right; exact Hevs | congruence].
-  exfalso. apply Hch. exact (events_truthful refuse ds c now U keep src dst Hwf Hdry Hroot Hnf Hnd2 HU Href Herr _ Hevs).
+  exfalso. apply Hch. exact (events_truthful refuse ds c now U keep src dst Hwf Hdry Hroot HU Href Herr _ Hevs).
 Qed.
 Print Assumptions C19_changed_entry_has_event.
 
